@@ -57,9 +57,25 @@ def make_table(spec):
         series[c] = s
     df = pd.DataFrame(series, index=idx)
     df = df[cols] if cols else df
+    if spec.get('dup_label') is not None and len(cols):
+        # two columns the call never names carry the SAME label (pd.concat(axis=1) of two sources)
+        extra = pd.DataFrame({0: ['n%d' % (i % 3) for i in range(n)], 1: [float(i) for i in range(n)]}, index=idx)
+        extra.columns = [spec['dup_label'], spec['dup_label']]
+        df = pd.concat([df, extra], axis=1)
+    if spec.get('frame_class') == 'user':
+        df = UserFrame(df)
     if spec.get('index_name') is not None and not isinstance(df.index, pd.MultiIndex):
         df.index.name = spec['index_name']       # e.g. the key column's name: set_index(key, drop=False)
     return df
+
+
+class UserFrame(pd.DataFrame):
+    """A user-level DataFrame subclass (what geopandas / domain libraries hand around): still a DataFrame."""
+    _metadata = ['source']
+
+    @property
+    def _constructor(self):
+        return UserFrame
 
 
 def table_spec(cols, rows, index=None, dtypes=None):
@@ -276,6 +292,15 @@ def sim_function(name):
         return overlap_fn
     if name == 'user_bound':
         return UserSim(3).score
+    if name == 'user_partial':
+        import functools
+        return functools.partial(shared_minus, 1)          # a callable without __name__
+    if name == 'user_callable':
+        return CallableSim(2)                               # an instance with __call__
+    if name == 'user_order':
+        return order_sensitive                              # depends on list semantics (order, indexing)
+    if name == 'user_tversky':
+        return sm.TverskyIndex(alpha=0.9, beta=0.1).get_raw_score     # configured py_stringmatching measure
     if name == 'user_len_diff':
         return len_diff
     if name == 'user_neg':
@@ -299,6 +324,26 @@ def overlap_fn(x, y):
 
 def len_diff(x, y):
     return abs(len(x) - len(y))
+
+
+def shared_minus(k, x, y):
+    return len(set(x) & set(y)) - k
+
+
+class CallableSim(object):
+    def __init__(self, k):
+        self.k = k
+
+    def __call__(self, x, y):
+        return float(len(set(x) & set(y)) * self.k)
+
+
+def order_sensitive(x, y):
+    # 2 for the same tokens in the same order, 1 for the same first token, else 0; concatenates lists
+    if len(x) == 0 or len(y) == 0:
+        return 0
+    both = x + y
+    return 2 if list(x) == list(y) else (1 if both[0] == y[0] else 0)
 
 
 def neg_len_diff(x, y):
@@ -347,6 +392,12 @@ def join_kwargs(call):
     kw['show_progress'] = bool(call.get('show_progress', False))
     if call.get('same_out_list') and kw.get('l_out_attrs') is not None:
         kw['r_out_attrs'] = kw['l_out_attrs']      # ONE list object handed over for both sides
+    if call.get('names_built_at_runtime', True):
+        # attribute names computed at run time are EQUAL to the key / join attribute names passed
+        # alongside, not the same string objects
+        for k in ('l_out_attrs', 'r_out_attrs'):
+            if isinstance(kw.get(k), list) and len(kw[k]) % 2 == 1:
+                kw[k] = [(a + ' ')[:-1] if isinstance(a, str) else a for a in kw[k]]
     if call.get('out_attrs_as') == 'tuple':
         for k in ('l_out_attrs', 'r_out_attrs'):
             if isinstance(kw.get(k), list):
